@@ -1462,6 +1462,10 @@ class Real(base.SimpleAsn1Type):
         if self._value in self._inf:
             return self._value
         else:
+            if self._value[0] and self._value[2] > 2 * sys.float_info.max_exp:
+                # far beyond any float: do not build the exact integer first
+                raise OverflowError('Real value too large to convert to float')
+
             return float(
                 self._value[0] * pow(self._value[1], self._value[2])
             )
